@@ -494,6 +494,17 @@ func (i *Interpreter) injectDependency(injection Injection, env *Environment) {
 	}
 }
 
+// hasRequiredField reports whether a type definition has a field that a
+// request must supply (marked required and without a default).
+func hasRequiredField(typeDef TypeDef) bool {
+	for _, field := range typeDef.Fields {
+		if field.Required && field.Default == nil {
+			return true
+		}
+	}
+	return false
+}
+
 // ExecuteRoute executes a route with the given request
 func (i *Interpreter) ExecuteRoute(route *Route, request *Request) (*Response, error) {
 	// Create a new environment for the route
@@ -554,6 +565,24 @@ func (i *Interpreter) ExecuteRoute(route *Route, request *Request) (*Response, e
 	// Always add request body to environment (even if nil)
 	// This ensures 'input' variable is always available in routes
 	inputValue := request.Body
+	// A declared input type with required fields cannot be satisfied by a
+	// missing body or by a body that is not a JSON object; without this check
+	// such a request skipped validation altogether and ran the route.
+	if route.InputType != nil {
+		if namedType, ok := route.InputType.(NamedType); ok {
+			if typeDef, exists := i.typeDefs[namedType.Name]; exists && hasRequiredField(typeDef) {
+				if _, isObject := inputValue.(map[string]interface{}); !isObject {
+					err := fmt.Errorf("input validation failed: request body must be a JSON object")
+					return &Response{
+						StatusCode: 400,
+						Body: map[string]interface{}{
+							"error": err.Error(),
+						},
+					}, err
+				}
+			}
+		}
+	}
 	if inputValue != nil {
 		// If route has an InputType declared, apply defaults and validate
 		if route.InputType != nil {
